@@ -49,6 +49,13 @@ def gen_sdp(rng, tier, seed):
         records = [[0x10000 + r * 3, [[0x0001, ['uuid', u]]]] for r in range(n)]
         return {'records': records, 'nclients': 1, 'mtus': [48, 48, 48], 'queries': [['search_services', [u], [[0, 0xFFFF]], 0]], 'profile': 'zero',
                 'concurrent': False, 'abandon': [None]}
+    if rng.random() < 0.03:
+        # a long answer for a client with a comfortable MTU: few rounds at that MTU (it would take more than the client's limit in
+        # minimum-MTU chunks)
+        u = SDP_UUIDS[0]
+        records = [[0x10000, [[0x0001, ['uuid', u]]] + [[0x0100 + k, ['text', 700]] for k in range(rng.choice([4, 5, 6]))]]]
+        return {'records': records, 'nclients': 1, 'mtus': [rng.choice([256, 1024, 4096])] * 3, 'queries': [[rng.choice(['get_attributes', 'search_attributes']), [u], [[0, 0xFFFF]], 0]],
+                'profile': 'zero', 'concurrent': False, 'abandon': [None]}
     nrec = rng.choice([1, 2, 3, 5, 8, 12])
     records = []
     for r in range(nrec):
